@@ -57,6 +57,12 @@ var c11Cases = []vCase{
 	{name: "bagof-goal-bound-before", prog: c11Facts, query: "G = r(X, Y), bagof(X, Y^G, L)."},
 	{name: "bagof-goal-with-caret-bound-before", prog: c11Facts, query: "G = Y^r(X, Y), bagof(X, G, L)."},
 	{name: "setof-witness-bound-to-partial", prog: "u(k0, f(k1)). u(k2, f(k3)). u(k4, f(k1)).", query: "Y = f(A), setof(X, u(X, Y), L)."},
+	{name: "bagof-free-var-in-list-tail", prog: "r([k0, k1]). r([k2, k3]). r([k4, k1]).", query: "bagof(H, r([H|T]), L)."},
+	{name: "setof-free-var-in-list-tail", prog: "r([k0, k1]). r([k2, k3]). r([k4, k1]).", query: "setof(H, r([H|T]), L)."},
+	{name: "bagof-template-var-in-list-tail", prog: "s(k0, [k1]). s(k2, [k3]). s(k4, [k1]).", query: "bagof([H|T], s(H, T), L)."},
+	{name: "bagof-quantified-var-in-list-tail", prog: "s(k0, [k1]). s(k2, [k3]). s(k4, [k1]).", query: "bagof(H, [x|T]^s(H, T), L)."},
+	{name: "bagof-free-var-in-nested-structure", prog: "s(k0, f(g(k1))). s(k2, f(g(k3))). s(k4, f(g(k1))).", query: "bagof(H, s(H, f(g(W))), L)."},
+	{name: "bagof-free-var-in-string-like-partial", prog: "s(k0, [a, b, k1]). s(k2, [a, b, k3]).", query: "bagof(H, s(H, [a, b|T]), L)."},
 	{name: "bagof-caret-nonvar-goal", prog: "", query: "bagof(X, Y^1, L)."},
 	{name: "bagof-cut-local", prog: c11Facts, query: "bagof(X, (r(X, Y), !), L)."},
 	{name: "findall-then-backtrack", prog: c11Facts + "o(k0). o(k1).", query: "o(A), findall(X, r(X, A), L)."},
